@@ -61,6 +61,79 @@ static int mode_points(int npts)
     return 0;
 }
 
+// The input functions are FUNCTIONS: what an object returns at a point depends on its own parameters and the point only, not on
+// what was evaluated before, nor on other objects of the same class that are alive on the same thread.  Three solver objects with
+// the same (problem, geometry, alpha, beta) but different (Rmax, kappa_eps, delta_e, alpha_jump) are evaluated alone (object-major:
+// the baseline), then interleaved at the same points (point-major, two orders), then again alone; every value must be bit-identical
+// to the baseline.
+static std::vector<double> eval_all(GMGPolarVerif& v, double r, double th)
+{
+    const double s = sin(th), c = cos(th);
+    std::vector<double> o;
+    o.push_back(v.geo().Fx(r, th, s, c)); o.push_back(v.geo().Fy(r, th, s, c));
+    o.push_back(v.geo().dFx_dr(r, th, s, c)); o.push_back(v.geo().dFy_dr(r, th, s, c));
+    o.push_back(v.geo().dFx_dt(r, th, s, c)); o.push_back(v.geo().dFy_dt(r, th, s, c));
+    o.push_back(v.coef().alpha(r)); o.push_back(v.coef().beta(r));
+    o.push_back(v.exact() ? v.exact()->exact_solution(r, th, s, c) : 0.0);
+    o.push_back(v.source().rhs_f(r, th, s, c));
+    o.push_back(v.boundary().u_D(r, th, s, c)); o.push_back(v.boundary().u_D_Interior(r, th, s, c));
+    return o;
+}
+static int mode_hist(int cases)
+{
+    Rng rng(seed_from_env());
+    static const char* names[] = {"Fx", "Fy", "dFx_dr", "dFy_dr", "dFx_dt", "dFy_dt", "alpha", "beta", "exact_solution", "rhs_f", "u_D", "u_D_Interior"};
+    for (int cs = 0; cs < cases; cs++) {
+        const int p = rng.range(0, 3), g = rng.range(0, 2), a = rng.range(0, 3), b = rng.range(0, 1);
+        const int K = 3;
+        std::vector<std::unique_ptr<GMGPolar>> objs;
+        std::vector<double> Rm;
+        bool ok = true;
+        std::string desc;
+        for (int k = 0; k < K && ok; k++) {
+            const double Rmax = rng.pick(std::vector<double>{1.3, 1.0, 2.0, rng.uniform(0.8, 2.5)});
+            const double kappa = g == 2 ? rng.uniform(0.1, 0.5) : rng.uniform(0.0, 0.5), delta = g == 2 ? rng.uniform(1.0, 2.0) : rng.uniform(0.0, 0.3);
+            std::vector<std::string> args = {"gmgpolar", "--verbose", "0", "--problem", std::to_string(p), "--geometry", std::to_string(g), "--alpha_coeff", std::to_string(a), "--beta_coeff", std::to_string(b)};
+            char buf[64];
+            snprintf(buf, sizeof buf, "%.17g", Rmax); args.push_back("--Rmax"); args.push_back(buf);
+            snprintf(buf, sizeof buf, "%.17g", kappa); args.push_back("--kappa_eps"); args.push_back(buf);
+            snprintf(buf, sizeof buf, "%.17g", delta); args.push_back("--delta_e"); args.push_back(buf);
+            snprintf(buf, sizeof buf, "%.17g", 0.7081 * Rmax); args.push_back("--alpha_jump"); args.push_back(buf);
+            std::vector<char*> argv;
+            for (auto& s : args) argv.push_back(const_cast<char*>(s.c_str()));
+            auto o = std::make_unique<GMGPolar>();
+            try { o->setParameters((int)argv.size(), argv.data()); } catch (const std::exception&) { ok = false; break; }
+            objs.push_back(std::move(o)); Rm.push_back(Rmax);
+            snprintf(buf, sizeof buf, "(%.3g,%.3g,%.3g)", Rmax, kappa, delta); desc += buf;
+        }
+        if (!ok) { printf("NOTUP %d %d %d %d\n", p, g, a, b); continue; }
+        // common points in relative coordinates (fraction of each object's Rmax would give different r: the memo-style defects need the
+        // SAME r and theta, so absolute radii inside the smallest domain are used)
+        const double Rmin = *std::min_element(Rm.begin(), Rm.end());
+        const int P = 12;
+        std::vector<double> rs(P), ts(P);
+        for (int q = 0; q < P; q++) { rs[q] = rng.uniform(0.05, 1.0) * Rmin; ts[q] = rng.uniform(0.0, 2 * M_PI); }
+        std::vector<std::vector<std::vector<double>>> base(K, std::vector<std::vector<double>>(P));
+        for (int k = 0; k < K; k++) { GMGPolarVerif v(*objs[k]); for (int q = 0; q < P; q++) base[k][q] = eval_all(v, rs[q], ts[q]); }
+        int bad = 0; std::string first;
+        auto judge = [&](int k, int q, const std::vector<double>& got, const char* order) {
+            for (size_t f = 0; f < got.size(); f++) {
+                uint64_t x, y; memcpy(&x, &got[f], 8); memcpy(&y, &base[k][q][f], 8);
+                if (x != y && !(std::isnan(got[f]) && std::isnan(base[k][q][f]))) {
+                    if (!bad) { char buf[256]; snprintf(buf, sizeof buf, "%s_of_object_%d_at_r=%.17g_theta=%.17g_%s:_%.17g_vs_alone_%.17g", names[f], k, rs[q], ts[q], order, got[f], base[k][q][f]); first = buf; }
+                    bad++;
+                }
+            }
+        };
+        for (int q = 0; q < P; q++) for (int k = 0; k < K; k++) { GMGPolarVerif v(*objs[k]); judge(k, q, eval_all(v, rs[q], ts[q]), "interleaved"); }
+        for (int q = P - 1; q >= 0; q--) for (int k = K - 1; k >= 0; k--) { GMGPolarVerif v(*objs[k]); judge(k, q, eval_all(v, rs[q], ts[q]), "interleaved-reversed"); }
+        for (int k = 0; k < K; k++) { GMGPolarVerif v(*objs[k]); for (int q = 0; q < P; q++) judge(k, q, eval_all(v, rs[q], ts[q]), "alone-again"); }
+        printf("HIST problem=%d geometry=%d alpha=%d beta=%d objects=%s values=%d differing=%d first=%s\n", p, g, a, b, desc.c_str(), 3 * K * P * 12, bad, bad ? first.c_str() : "-");
+    }
+    printf("end\n");
+    return 0;
+}
+
 // Translator-independent oracle: -div(alpha grad u) + beta u evaluated by nested 4th-order central differences from the COMPILED exact
 // solution, coefficients and Jacobian functions, against the compiled source term — no Lean term involved, so it still speaks when a
 // formula leaves the translator's grammar
@@ -142,6 +215,7 @@ int main(int argc, char** argv)
     if (mode == "points") return mode_points(n);
     if (mode == "culham") return mode_culham(n);
     if (mode == "fd") return mode_fd(n);
+    if (mode == "hist") return mode_hist(n);
     fprintf(stderr, "usage: h_inputfn points|culham n\n");
     return 2;
 }
